@@ -29,7 +29,7 @@ class Val:
 
 NP_MAP = {"log": "Transc.log", "exp": "Transc.exp", "sqrt": "Transc.sqrt"}
 BINOPS = {ast.Add: "PyV.oadd", ast.Sub: "PyV.osub", ast.Mult: "PyV.omul", ast.Div: "PyV.odiv"}
-LEAN_TY = {"b": "List Bool", "v": "List (Option α)", "ov": "Option (List (Option α))", "str": "String", "n": "Option α", "table": "List (String × String)"}
+LEAN_TY = {"b": "List Bool", "m": "List (List (Option α))", "v": "List (Option α)", "ov": "Option (List (Option α))", "str": "String", "n": "Option α", "table": "List (String × String)"}
 
 
 class VSym:
@@ -320,8 +320,12 @@ class VSym:
             if kws:
                 raise Untranslatable("keyword arguments of a numpy call")
             args = [self.expr(a, env, guards) for a in node.args]
+            if base == "sqrt" and getattr(self, "sqrt_nan", False) and len(args) == 1 and args[0].ty == "n":
+                return Val(f"(PyV.osqrt {args[0].text})", "n")
             if base in NP_MAP and len(args) == 1 and args[0].ty == "n":
                 return Val(f"(PyV.omap {NP_MAP[base]} {args[0].text})", "n")
+            if base == "sum" and len(args) == 1 and args[0].ty == "n":
+                return args[0]
             if base in NP_MAP and len(args) == 1 and args[0].ty == "v":
                 return Val(f"(PyV.vmap {NP_MAP[base]} {args[0].text})", "v")
             if base == "isnan" and len(args) == 1 and args[0].ty == "v":
@@ -343,6 +347,11 @@ class VSym:
             if k.ty != "str" or d.ty != "none":
                 raise Untranslatable("dict.get")
             return Val(f"(List.lookup {k.text} {lean_ident(fn[:-4])})", "ostr")
+        if fn == "len" and len(node.args) == 1 and not kws:
+            a = self.expr(node.args[0], env, guards)
+            if a.ty in ("v", "m"):
+                return Val(f"(PyV.olen {a.text})", "n")
+            raise Untranslatable("len")
         if base == "lower" and not node.args and not kws:
             e = self.expr(node.func.value, env, guards)
             if e.ty != "str":
@@ -407,6 +416,11 @@ class VSym:
                 env2[tgt.id] = Val(fresh, v.ty)
                 return f"(let {fresh} := {v.text}; {self.run(rest, env2, ret)})"
             return self.with_value(s.value, env, bind)
+        if isinstance(s, ast.AugAssign) and isinstance(s.target, ast.Name):
+            as_assign = ast.Assign(targets=[ast.Name(id=s.target.id, ctx=ast.Store())], value=ast.BinOp(left=ast.Name(id=s.target.id, ctx=ast.Load()), op=s.op, right=s.value))
+            return self.run([as_assign] + rest, env, ret)
+        if isinstance(s, ast.For):
+            return self.for_loop(s, rest, env, ret)
         if isinstance(s, ast.If):
             guards = []
             c = self.expr(s.test, env, guards)
@@ -438,6 +452,65 @@ class VSym:
             b = self.run(list(s.orelse) + rest, env, ret)
             return f"(if {c.text} then {a} else {b})"
         raise Untranslatable(type(s).__name__)
+
+    def for_loop(self, s, rest, env, ret):
+        """`for a, b in zip(X, Y): <assignments>`: a left fold over the zipped sequences; the accumulators are the variables of the enclosing scope that
+        the body assigns; afterwards the loop variables hold the last pair (unbound -- NameError -- when the sequences are empty)"""
+        if s.orelse or not (isinstance(s.iter, ast.Call) and dotted(s.iter.func) == "zip" and len(s.iter.args) == 2 and not s.iter.keywords
+                            and isinstance(s.target, ast.Tuple) and len(s.target.elts) == 2 and all(isinstance(e, ast.Name) for e in s.target.elts)):
+            raise Untranslatable("for statement")
+        guards = []
+        xs = self.expr(s.iter.args[0], env, guards)
+        ys = self.expr(s.iter.args[1], env, guards)
+        if guards or xs.ty not in ("m", "v") or ys.ty not in ("m", "v"):
+            raise Untranslatable("for over non-arrays")
+        elt = {"m": "v", "v": "n"}
+        a, b = s.target.elts[0].id, s.target.elts[1].id
+        assigned = []
+        for st in s.body:
+            if isinstance(st, (ast.Assign, ast.AugAssign)):
+                t = st.targets[0] if isinstance(st, ast.Assign) else st.target
+                if not isinstance(t, ast.Name):
+                    raise Untranslatable("loop body target")
+                if t.id not in assigned:
+                    assigned.append(t.id)
+            else:
+                raise Untranslatable("loop body statement")
+        accs = [n for n in assigned if n in env and env[n] is not None]
+        if not accs or any(env[n].ty != "n" for n in accs):
+            raise Untranslatable("loop accumulators")
+        st_names = [self.fresh("acc_" + n) for n in accs]
+        pa, pb = self.fresh(a), self.fresh(b)
+        env_b = dict(env)
+        for n, f in zip(accs, st_names):
+            env_b[n] = Val(f, "n")
+        env_b[a], env_b[b] = Val(pa, elt[xs.ty]), Val(pb, elt[ys.ty])
+        body = [ast.Assign(targets=[ast.Name(id=st.target.id, ctx=ast.Store())], value=ast.BinOp(left=ast.Name(id=st.target.id, ctx=ast.Load()), op=st.op, right=st.value))
+                if isinstance(st, ast.AugAssign) else st for st in s.body]
+        lets, env_after = self.block(body, env_b)
+        outs = [env_after[n] for n in accs]
+        if any(o.ty != "n" for o in outs):
+            raise Untranslatable("accumulator type")
+        tup = lambda items: items[0] if len(items) == 1 else "(" + ", ".join(items) + ")"
+        ty = " × ".join(["Option α"] * len(accs))
+        init = tup([env[n].text for n in accs])
+        step = f"(fun (st : {ty}) (pr : {LEAN_TY[elt[xs.ty]]} × {LEAN_TY[elt[ys.ty]]}) => match st, pr with | {tup(st_names)}, ({pa}, {pb}) => ({lets}{tup([o.text for o in outs])}))"
+        zipped = self.fresh("zipped")
+        res = [self.fresh(n) for n in accs]
+        env2 = dict(env)
+        for n, f in zip(accs, res):
+            env2[n] = Val(f, "n")
+        for n in assigned:
+            if n not in accs:
+                env2[n] = None          # a temporary of the body: not used after the loop in the fragment
+        used_after = {n.id for st in rest for n in ast.walk(st) if isinstance(n, ast.Name)}
+        head = f"(let {zipped} := List.zip {xs.text} {ys.text}; match (List.foldl {step} {init} {zipped} : {ty}) with | {tup(res)} => "
+        if a in used_after or b in used_after:
+            la, lb = self.fresh(a + "_last"), self.fresh(b + "_last")
+            env2[a], env2[b] = Val(la, elt[xs.ty]), Val(lb, elt[ys.ty])
+            return head + f"(match {zipped}.getLast? with | none => none | some ({la}, {lb}) => {self.run(rest, env2, ret)}))"
+        env2[a] = env2[b] = None
+        return head + f"{self.run(rest, env2, ret)})"
 
     def block(self, stmts, env):
         """exit-free straight-line statements (assignments to names, masked assignments): (let-bindings, environment afterwards)"""
@@ -588,14 +661,21 @@ TARGETS += [_trad_stat("trad_mean_fn_frequency", "mean_fn_frequency"), _trad_sta
             _trad_stat("trad_mean_fn_amplitude", "mean_fn_amplitude"), _trad_stat("trad_std_fn_amplitude", "std_fn_amplitude")]
 
 
+# weighted mean / standard deviation of Monte-Carlo realisations (C14): two loops over zip(values, norm_weights) with accumulators
+TARGETS += [dict(name="spatial_statistics", vgroup="VecSpatial", file="hvsrpy/hvsr_spatial.py", func="_statistics", tables=[], args=["values", "weights"],
+                 params=[("values", "m"), ("weights", "v")], returns="pair", sqrt_nan=True)]
+
+
 def translate(repo, spec):
     binders = " ".join(f"({lean_ident(t)} : {LEAN_TY['table']})" for t in spec["tables"]) + " " + \
         " ".join(f"({lean_ident(p)} : {LEAN_TY[t]})" for p, t in spec["params"])
-    head = f"def {spec['name']} {{α : Type}} [Transc α] {binders} : Option (Option α) :="
+    rty = "Option (Option α × Option α)" if spec.get("returns") == "pair" else "Option (Option α)"
+    head = f"def {spec['name']} {{α : Type}} [Transc α] {binders} : {rty} :="
     try:
         with open(os.path.join(repo, spec["file"])) as f:
             tree = ast.parse(f.read())
         sym = VSym(tree, spec["tables"], repo=repo, file=spec["file"], cls=spec.get("cls"))
+        sym.sqrt_nan = bool(spec.get("sqrt_nan"))
         if spec.get("cls"):
             c = sym.class_node()
             fn = next((m for m in (c.body if c else []) if isinstance(m, ast.FunctionDef) and m.name == spec["func"]), None)
@@ -611,6 +691,10 @@ def translate(repo, spec):
             env[c_] = sym.const(v_)
 
         def ret(v):
+            if spec.get("returns") == "pair":
+                if v.ty != "tuple" or len(v.items) != 2 or any(i.ty != "n" for i in v.items):
+                    raise Untranslatable("return value is not a pair of numbers")
+                return f"some ({v.items[0].text}, {v.items[1].text})"
             if v.ty != "n":
                 raise Untranslatable(f"return value of type {v.ty}")
             return f"some {v.text}"
@@ -635,7 +719,7 @@ def emit(repo):
     return status, "\n".join(L) + "\n"
 
 
-READ = {"v": "optVec", "ov": "optOptVec", "str": "tok", "b": "boolVec"}
+READ = {"v": "optVec", "ov": "optOptVec", "str": "tok", "b": "boolVec", "m": "optMat"}
 
 
 def emit_driver(status):
@@ -644,13 +728,18 @@ def emit_driver(status):
          "namespace HV.Drv", "open HV.Proto HV.Generated", "",
          "def strPairsV : P (List (String × String)) := do rep (← nat) (do let a ← tok; let b ← tok; pure (a, b))",
          "def optOptVec : P (Option (List (Option Float))) := do", "  match (← peek?) with",
-         '  | some "None" => do let _ ← tok; pure none', "  | _ => do pure (some (← optVec))", "",
+         '  | some "None" => do let _ ← tok; pure none', "  | _ => do pure (some (← optVec))",
+         "def optMat : P (List (List (Option Float))) := do rep (← nat) optVec", "",
          "def opsPyVec (op : String) : Option (P String) :=", "  match op with"]
     for spec in TARGETS:
         if status.get("pyvec:" + spec["name"]) != "translated":
             continue
         binds = [f"let {lean_ident(t)} ← strPairsV" for t in spec["tables"]] + [f"let {lean_ident(p)} ← {READ[t]}" for p, t in spec["params"]]
         args = " ".join([lean_ident(t) for t in spec["tables"]] + [lean_ident(p) for p, _ in spec["params"]])
+        if spec.get("returns") == "pair":
+            L.append(f'  | "pyvec.{spec["name"]}" => some (do {"; ".join(binds)}; pure (match PyVec.{spec["name"]} (α := Float) {args} with '
+                     f'| none => "raise" | some (a, b) => "pair " ++ fOF a ++ " " ++ fOF b))')
+            continue
         L.append(f'  | "pyvec.{spec["name"]}" => some (do {"; ".join(binds)}; pure (match PyVec.{spec["name"]} (α := Float) {args} with '
                  f'| none => "raise" | some none => "nan" | some (some x) => "val " ++ fF x))')
     L += ["  | _ => none", "", "end HV.Drv"]
